@@ -221,7 +221,7 @@ func c07Graphs(thorough bool) []c07Graph {
 }
 
 var c07MarkRe = regexp.MustCompile(`data-m="([^"]+)"`)
-var c07LayoutRe = regexp.MustCompile(`(?m)^layout: (\S+)$`)
+var c07LayoutRe = regexp.MustCompile(`(?m)^layout: (\S+)\r?$`)
 
 func c07Eval(g c07Graph) *Case {
 	page := g.page
@@ -302,6 +302,15 @@ func runC07(r *Run, replay *Case) {
 			if g.desc == replay.Input["desc"] {
 				r.Add(c07Eval(g))
 			}
+			if g.desc+" crlf" == replay.Input["desc"] {
+				g2 := g
+				g2.desc = g.desc + " crlf"
+				g2.files = map[string]string{}
+				for n, src := range g.files {
+					g2.files[n] = strings.ReplaceAll(src, "\n", "\r\n")
+				}
+				r.Add(c07Eval(g2))
+			}
 		}
 		return
 	}
@@ -310,6 +319,20 @@ func runC07(r *Run, replay *Case) {
 		"every link printing three probe variables (model: Layout.dataLoop; oracle: own front-matter, page front-matter, Fill data, config); non-trivial = every graph; the graph stream is exhaustive within its file set"
 	for _, g := range gs {
 		r.Add(c07Eval(g))
+	}
+	// the same graphs with every file stored with CRLF line ends (a Windows checkout): the front-matter fence, the layout key and the
+	// chain are the same
+	for _, g := range gs {
+		if strings.HasPrefix(g.desc, "chain-length") {
+			continue
+		}
+		g2 := g
+		g2.desc = g.desc + " crlf"
+		g2.files = map[string]string{}
+		for n, src := range g.files {
+			g2.files[n] = strings.ReplaceAll(src, "\n", "\r\n")
+		}
+		r.Add(c07Eval(g2))
 	}
 	c07DataStream(r)
 	c07History(r)
